@@ -1055,9 +1055,14 @@ func (x *pmRun) judgeChain(expCur, expSta *types.Block, used, budget int64) {
 		if nb := x.V.BC.GetBlockByHash(expSta.Hash()); nb != nil {
 			have = len(nb.Confirms)
 		}
+		_, insErrs := x.cp.insertedAt(expSta.Hash())
 		switch {
 		case left > 0:
 			fate = "left-in-confirm-cache"
+		case have < len(x.cs.Twin[idx]) && len(insErrs) > 0:
+			// InsertBlock was also called with a copy of this block that lost against another copy
+			// (the manager merges the cached confirms into the copy it is about to insert)
+			fate = "merged-into-a-copy-whose-insert-failed"
 		case have < len(x.cs.Twin[idx]):
 			fate = "confirm-dropped"
 		default:
@@ -1067,8 +1072,8 @@ func (x *pmRun) judgeChain(expCur, expSta *types.Block, used, budget int64) {
 		handed := x.cp.cfs[expSta.Hash()]
 		x.cp.mu.Unlock()
 		x.vs.viol("C20/not-converged:stable:"+shape+":"+fate,
-			fmt.Sprintf("after every message was delivered and %d drains of the block cache (budget %d) the node's stable block is height %d, the in-order twin's is %d; block %d was sent %d confirms, its stored copy holds %d, %d are still in the confirm cache, %d signatures were handed to InsertConfirms; mode %s",
-				used, budget, sta.Height(), expSta.Height(), expSta.Height(), len(x.cs.Twin[idx]), have, left, handed, x.cs.Mode), x.cs)
+			fmt.Sprintf("after every message was delivered and %d drains of the block cache (budget %d) the node's stable block is height %d, the in-order twin's is %d; block %d was sent %d confirms, its stored copy holds %d, %d are still in the confirm cache, %d signatures were handed to InsertConfirms, InsertBlock errors for that block: %v; mode %s",
+				used, budget, sta.Height(), expSta.Height(), expSta.Height(), len(x.cs.Twin[idx]), have, left, handed, insErrs, x.cs.Mode), x.cs)
 		return
 	}
 	x.vs.viol("C20/not-converged:stable:"+shape+":"+fate, "the node's stable block is ahead of the in-order twin's", x.cs)
